@@ -371,3 +371,131 @@ pub fn shape_hash(b: &[Stmt]) -> u64 {
     shape_block(b, &mut s);
     crate::rng::hash_str(&s)
 }
+
+// ------------------------------------------------------------------------------------------------
+// structural coverage of a corpus: which (parent construct, slot, child construct) combinations occur
+
+pub const KIND_NAMES: [&str; 22] = [
+    "Infix", "Prefix", "Int", "Float", "Bool", "If", "Ident", "Function", "Call", "Assign", "Str", "Array", "Index", "While", "Unknown", "Let", "Return", "ExprStmt", "Block", "Break", "Continue", "(empty)",
+];
+pub const SLOT_NAMES: [&str; 24] = [
+    "program.item", "program.last", "let.value", "return.value", "block.item", "block.last", "infix.left", "infix.right", "prefix.operand", "assign.target", "assign.value", "if.cond", "if.cons.item", "if.cons.last",
+    "if.alt.item", "if.alt.last", "while.cond", "while.body.item", "while.body.last", "function.body.item", "function.body.last", "call.callee", "call.arg", "array.item",
+];
+const SLOT_INDEX_BASE: u8 = 24;
+const SLOT_INDEX_INDEX: u8 = 25;
+
+pub fn slot_name(s: u8) -> &'static str {
+    match s {
+        24 => "index.base",
+        25 => "index.index",
+        _ => SLOT_NAMES[s as usize],
+    }
+}
+
+fn expr_kind(e: &Expr) -> u8 {
+    match e {
+        Expr::Infix { .. } => 0,
+        Expr::Prefix { .. } => 1,
+        Expr::Int(_) => 2,
+        Expr::Float(_) => 3,
+        Expr::Bool(_) => 4,
+        Expr::If { .. } => 5,
+        Expr::Ident(_) => 6,
+        Expr::Function { .. } => 7,
+        Expr::Call { .. } => 8,
+        Expr::Assign { .. } => 9,
+        Expr::Str(_) => 10,
+        Expr::Array(_) => 11,
+        Expr::Index { .. } => 12,
+        Expr::While { .. } => 13,
+        Expr::Unknown(_) => 14,
+    }
+}
+
+/// the construct a statement contributes to an edge: an expression statement counts as its expression
+fn stmt_kind(s: &Stmt) -> u8 {
+    match s {
+        Stmt::Let(..) => 15,
+        Stmt::Return(_) => 16,
+        Stmt::Expr(e) => expr_kind(e),
+        Stmt::Block(_) => 18,
+        Stmt::Break => 19,
+        Stmt::Continue => 20,
+    }
+}
+
+/// every (slot, child kind) edge of the tree, as (slot, kind) codes; an empty statement list gives (last slot, "(empty)")
+pub fn edges_block(b: &[Stmt], item: u8, last: u8, out: &mut Vec<(u8, u8)>) {
+    if b.is_empty() {
+        out.push((last, 21));
+    }
+    for (i, s) in b.iter().enumerate() {
+        out.push((if i + 1 == b.len() { last } else { item }, stmt_kind(s)));
+        match s {
+            Stmt::Let(_, e) => {
+                out.push((2, expr_kind(e)));
+                edges_expr(e, out);
+            }
+            Stmt::Return(e) => {
+                out.push((3, expr_kind(e)));
+                edges_expr(e, out);
+            }
+            Stmt::Expr(e) => edges_expr(e, out),
+            Stmt::Block(inner) => edges_block(inner, 4, 5, out),
+            Stmt::Break | Stmt::Continue => {}
+        }
+    }
+}
+
+pub fn edges_expr(e: &Expr, out: &mut Vec<(u8, u8)>) {
+    let mut sub = |slot: u8, x: &Expr, out: &mut Vec<(u8, u8)>| {
+        out.push((slot, expr_kind(x)));
+        edges_expr(x, out);
+    };
+    match e {
+        Expr::Infix { left, right, .. } => {
+            sub(6, left, out);
+            sub(7, right, out);
+        }
+        Expr::Prefix { right, .. } => sub(8, right, out),
+        Expr::Assign { left, right } => {
+            sub(9, left, out);
+            sub(10, right, out);
+        }
+        Expr::If { cond, cons, alt } => {
+            sub(11, cond, out);
+            edges_block(cons, 12, 13, out);
+            if let Some(a) = alt {
+                edges_block(a, 14, 15, out);
+            }
+        }
+        Expr::While { cond, body } => {
+            sub(16, cond, out);
+            edges_block(body, 17, 18, out);
+        }
+        Expr::Function { body, .. } => edges_block(body, 19, 20, out),
+        Expr::Call { left, args } => {
+            sub(21, left, out);
+            for a in args {
+                sub(22, a, out);
+            }
+        }
+        Expr::Array(xs) => {
+            for x in xs {
+                sub(23, x, out);
+            }
+        }
+        Expr::Index { left, index } => {
+            sub(SLOT_INDEX_BASE, left, out);
+            sub(SLOT_INDEX_INDEX, index, out);
+        }
+        _ => {}
+    }
+}
+
+pub fn edges_program(p: &[Stmt]) -> Vec<(u8, u8)> {
+    let mut out = vec![];
+    edges_block(p, 0, 1, &mut out);
+    out
+}
